@@ -280,7 +280,13 @@ CLAIMS["C06"] = {
             "(listener_messages_never_refused; invariant between the broker's listener table and the client's listener map after the "
             "messages on their way, exact characterisations of the four listener handlers, 'a removed or dead connection never comes "
             "back' and framing for all other handlers, clean-up and the work loop). "
-            "The composed statement for channel messages, claim replies and NotSupported is NOT a theorem: it is "
+            "Channels on the same composed system: whatever the broker queues for a client about channels (replies to create / close / "
+            "claim, end-claimed and end-closed notifications, items, capacity) is accepted when the client gets to it, in every "
+            "interleaving incl. close racing claim, flow-control violations and connections that end "
+            "(channel_messages_never_refused; invariant: for every live connection and every end it has claimed in the broker's table "
+            "the client's map, after the messages on their way, says pending while the other end is unclaimed and established once it "
+            "is claimed). "
+            "The composed statement for calls and NotSupported, and the client's own assert!s about its maps, are NOT theorems: this is "
             "tied by runs of real clients against a real broker under PRNG-chosen schedules on FIFO sizes 1..16 and unbounded, whose "
             "transport traces are replayed through the model, with implementation-only oracles for panics, unexpected-message stops, "
             "completion at quiescence (lost wake-ups, deadlock), call-result consistency and an idle broker stopping.",
